@@ -15,8 +15,11 @@
      cancel_preserves_engine   PROVED (C16_cancel_preserves_engine, abstract: C16_cancel_preserves_engine_abstract; block at the end) under
                                the hypotheses of C05's table clause (precise configurations, NoCollision on the touched set): the state
                                left by a call cancelled inside ANY leaf evaluation satisfies the table invariant and SJ again, and
-                               every later call on it (cancelled or not) reports right forced-result verdicts.  For other
-                               configurations it is tested on every run (exhaustive-negamax / forced-result oracles, model replay).
+                               every later call on it (cancelled or not) reports right forced-result verdicts.  For the positions
+                               of ONE game the hash hypothesis is the syntactic one (equal Position.Hash => Position.Equal):
+                               C16_cancel_preserves_engine_game.  For every configuration without null move the SOUNDNESS half
+                               survives a cancellation (C16_cancel_preserves_soundness); otherwise it is tested on every run
+                               (exhaustive-negamax / forced-result oracles, model replay).
      data-race freedom         not expressible as a theorem about this model (Go memory model); -race run = supporting evidence. *)
 From Coq Require Import NArith ZArith List Bool.
 Require Import Board Move GameOver Eval Search SearchC CancelFacts CancelEx.
@@ -83,3 +86,29 @@ Theorem C16_cancel_preserves_engine_abstract : forall basis Pos, table_facts bas
     analyze_cancel basis cfg' k' sk p' = (sk', (pv, v, d, acc, c)) -> 0 < d -> verdict_ok basis p' v d.
 Proof. exact table_cancel_preserves_engine. Qed.
 Print Assumptions C16_cancel_preserves_engine_abstract.
+
+
+(* ---- second round (SearchTable6-8.v) ---- *)
+Require Import SearchTable6 SearchTable7 SearchTable8.
+
+(* cancel_preserves_engine for the positions of ONE game: the only hash hypothesis is "equal Position.Hash on the touched set implies
+   Position.Equal" (game_set); C01's invariant and the piece limit follow from "replayed from tak.New" *)
+Theorem C16_cancel_preserves_engine_game : forall sz bwt stones caps, (3 <= sz <= 8)%N -> (0 < stones)%N -> (2 * (stones + caps) <= 64)%N ->
+  forall U, game_set sz bwt stones caps U ->
+  forall s cfg k p sk r, engine_game U s -> precise cfg -> builtin_eval cfg -> ask_game cfg U p ->
+  analyze_cancel gen_basis cfg k s p = (sk, r) ->
+  engine_game U sk /\ SJ sk /\ tt_valid gen_basis (PosT U 0%nat) sk /\
+  forall cfg' k' p' sk' pv v d acc c, precise cfg' -> builtin_eval cfg' -> ask_game cfg' U p' ->
+    analyze_cancel gen_basis cfg' k' sk p' = (sk', (pv, v, d, acc, c)) -> 0 < d -> verdict_ok gen_basis p' v d.
+Proof. exact table_cancel_preserves_engine_game. Qed.
+Print Assumptions C16_cancel_preserves_engine_game.
+
+(* every configuration without null move: after a call cancelled anywhere the engine is an engine state again (engsi_call), so every
+   later call - of any such configuration, cancelled or not - reports only real forced results *)
+Theorem C16_cancel_preserves_soundness : forall U, touch_set U ->
+  forall s cfg k p sk r, engine_sinst U s -> c_nonull cfg = true -> builtin_eval cfg -> ask_s cfg U p ->
+  analyze_cancel gen_basis cfg k s p = (sk, r) ->
+  forall cfg' k' p' sk' pv v d acc c, c_nonull cfg' = true -> builtin_eval cfg' -> ask_s cfg' U p' ->
+    analyze_cancel gen_basis cfg' k' sk p' = (sk', (pv, v, d, acc, c)) -> sound_verdict gen_basis p' v.
+Proof. exact cancel_preserves_soundness_inst. Qed.
+Print Assumptions C16_cancel_preserves_soundness.
